@@ -12,7 +12,10 @@ Mirrors (Go, /repo/pkg):
                                checkAndRotateColFiles  addSegmeta → BulkAddRotatedSegmetas: WriteSfm, then append
                                                        to segmeta.json; CleanupUnrotatedSegment → resetSegStore
                                resetSegStore           suffix.GetNextSuffix (tmp + rename), MkdirAll(segment dir)
-  segment/writer/segmetarw.go  WriteSfm                OpenFile(O_WRONLY|O_CREATE|O_TRUNC) ; Write ; Sync
+  segment/writer/segmetarw.go  WriteSfm                OpenFile(<segkey>.sfm.tmp, O_CREATE|O_TRUNC) ; Write ; Sync ;
+                                                       os.Rename onto <segkey>.sfm  (atomic replace)
+                                                       [before the repair: OpenFile(<segkey>.sfm, O_TRUNC) ; Write ; Sync —
+                                                        kept below as the `…Old` protocol, for the counterexample theorem]
                                BulkAddRotatedSegmetas  OpenFile(O_APPEND) ; Write ; Sync
   segment/writer/suffix/suffix.go  getAndIncrementSuffixFromFile / writeSuffix
   segment/query/segquery.go + queryrefresh.go          startup: populateMicroIndices (ReadLocalSegmeta: every
@@ -46,6 +49,8 @@ structure SegSt where
   sstTmp : Option (List Nat) := none
   /-- `<segkey>.sst`: segment statistics over the listed flushes -/
   sst : Option (List Nat) := none
+  /-- `<segkey>.sfm.tmp` (never read by anything) -/
+  sfmTmp : Option (List Nat) := none
   sfm : Sfm := .absent
 deriving Repr, Inhabited
 
@@ -71,8 +76,10 @@ inductive Step where
   | bsu (s f : Nat) (ws : List Nat)        -- append the block summary of flush f
   | sstTmp (s : Nat) (fls : List Nat)      -- create/truncate + write .sst.tmp
   | sstRename (s : Nat)                    -- rename .sst.tmp → .sst
-  | sfmTrunc (s : Nat)                     -- OpenFile(.sfm, O_CREATE|O_TRUNC)
-  | sfmWrite (s : Nat) (fls : List Nat)    -- Write(json)
+  | sfmTmp (s : Nat) (fls : List Nat)      -- create/truncate + write .sfm.tmp
+  | sfmRename (s : Nat)                    -- rename .sfm.tmp → .sfm
+  | sfmTrunc (s : Nat)                     -- OLD protocol: OpenFile(.sfm, O_CREATE|O_TRUNC)
+  | sfmWrite (s : Nat) (fls : List Nat)    -- OLD protocol: Write(json) into the truncated .sfm
   | segmetaAppend (s : Nat) (fls : List Nat)
 deriving Repr, DecidableEq, Inhabited
 
@@ -89,6 +96,8 @@ def apply (fs : FS) : Step → FS
   | .bsu s f ws => fs.setSeg s (fun st => { st with bsu := st.bsu ++ [(f, ws)] })
   | .sstTmp s fls => fs.setSeg s (fun st => { st with sstTmp := some fls })
   | .sstRename s => fs.setSeg s (fun st => { st with sst := (st.sstTmp <|> st.sst), sstTmp := none })
+  | .sfmTmp s fls => fs.setSeg s (fun st => { st with sfmTmp := some fls })
+  | .sfmRename s => fs.setSeg s (fun st => { st with sfm := (st.sfmTmp.map Sfm.json).getD st.sfm, sfmTmp := none })
   | .sfmTrunc s => fs.setSeg s (fun st => { st with sfm := .empty })
   | .sfmWrite s fls => fs.setSeg s (fun st => { st with sfm := .json fls })
   | .segmetaAppend s fls => { fs with segmeta := fs.segmeta ++ [(s, fls)] }
@@ -119,12 +128,12 @@ def openSteps (n : Nat) : List Step := [.suffixTmp (n + 1), .suffixRename, .mkdi
 /-- `AppendWipToSegfile` with a non-empty buffer -/
 def flushSteps (w : W) (ws : List Nat) : List Step :=
   ws.map (fun c => Step.chunk w.cur w.nf c) ++
-  [.bsu w.cur w.nf ws, .sstTmp w.cur (w.fls ++ [w.nf]), .sstRename w.cur, .sfmTrunc w.cur, .sfmWrite w.cur (w.fls ++ [w.nf])]
+  [.bsu w.cur w.nf ws, .sstTmp w.cur (w.fls ++ [w.nf]), .sstRename w.cur, .sfmTmp w.cur (w.fls ++ [w.nf]), .sfmRename w.cur]
 
 /-- `checkAndRotateColFiles` when it rotates (only called when the segment has at least one block) -/
 def rotateSteps (w : W) : List Step :=
   if w.fls = [] then [] else
-  [.sfmTrunc w.cur, .sfmWrite w.cur w.fls, .segmetaAppend w.cur w.fls] ++ openSteps (w.cur + 1)
+  [.sfmTmp w.cur w.fls, .sfmRename w.cur, .segmetaAppend w.cur w.fls] ++ openSteps (w.cur + 1)
 
 def cmdSteps (w : W) : Cmd → List Step
   | .fl ws => flushSteps w ws
@@ -156,7 +165,7 @@ def completedFrom (w : W) : Hist → Nat → List Nat
     let n := (cmdSteps w c).length
     if n ≤ k then cmdFlush w c ++ completedFrom (next w c) h (k - n) else []
 
-/-- flushes that had completed (their running .sfm written) when the crash hit after `k` steps -/
+/-- flushes that had completed (their running .sfm in place) when the crash hit after `k` steps -/
 def completed (h : Hist) (k : Nat) : List Nat := completedFrom {} h (k - 3)
 
 /-- the flush that was cut by the crash (at least one of its steps done, not all) -/
@@ -171,19 +180,35 @@ def inflightFrom (w : W) : Hist → Nat → Option Nat
 
 def inflight (h : Hist) (k : Nat) : Option Nat := inflightFrom {} h (k - 3)
 
-def isTrunc : Option Step → Bool
-  | some (.sfmTrunc _) => true
-  | _ => false
+/-! ### the protocol before the repair of `WriteSfm` (truncate in place, then write) -/
 
-/-- the last step that completed belongs to the command that was cut and is the truncating open of a .sfm -/
-def windowFrom (w : W) : Hist → Nat → Bool
-  | [], _ => false
+def flushStepsOld (w : W) (ws : List Nat) : List Step :=
+  ws.map (fun c => Step.chunk w.cur w.nf c) ++
+  [.bsu w.cur w.nf ws, .sstTmp w.cur (w.fls ++ [w.nf]), .sstRename w.cur, .sfmTrunc w.cur, .sfmWrite w.cur (w.fls ++ [w.nf])]
+
+def rotateStepsOld (w : W) : List Step :=
+  if w.fls = [] then [] else
+  [.sfmTrunc w.cur, .sfmWrite w.cur w.fls, .segmetaAppend w.cur w.fls] ++ openSteps (w.cur + 1)
+
+def cmdStepsOld (w : W) : Cmd → List Step
+  | .fl ws => flushStepsOld w ws
+  | .ro => rotateStepsOld w
+
+def stepsFromOld (w : W) : Hist → List Step
+  | [] => []
+  | c :: h => cmdStepsOld w c ++ stepsFromOld (next w c) h
+
+def stepsOld (h : Hist) : List Step := openSteps 0 ++ stepsFromOld {} h
+
+def crashAfterOld (h : Hist) (k : Nat) : FS := run {} ((stepsOld h).take k)
+
+def completedFromOld (w : W) : Hist → Nat → List Nat
+  | [], _ => []
   | c :: h, k =>
-    let n := (cmdSteps w c).length
-    if n ≤ k then windowFrom (next w c) h (k - n) else isTrunc ((cmdSteps w c).take k).getLast?
+    let n := (cmdStepsOld w c).length
+    if n ≤ k then cmdFlush w c ++ completedFromOld (next w c) h (k - n) else []
 
-/-- the crash hit inside `WriteSfm`, between the truncating open (O_TRUNC) and the write -/
-def inSfmWindow (h : Hist) (k : Nat) : Bool := windowFrom {} h (k - 3)
+def completedOld (h : Hist) (k : Nat) : List Nat := completedFromOld {} h (k - 3)
 
 /-! ### restart -/
 
